@@ -64,19 +64,6 @@ Proof.
   induction l as [|[k' v] r IH]; cbn [In tickets]; [contradiction|].
   intros [H|H]; [inversion H; subst; lia | specialize (IH H); lia].
 Qed.
-Lemma Forall_aupdate {A} (P : nat * A -> Prop) k v l :
-  Forall P l -> P (k, v) -> Forall P (aupdate k v l).
-Proof.
-  induction l as [|[k' v'] r IH]; cbn [aupdate]; intros F Pv; [constructor|].
-  inversion F; subst. destruct (Nat.eqb k k'); constructor; auto.
-Qed.
-Lemma Forall_aremove {A} (P : nat * A -> Prop) k l : Forall P l -> Forall P (aremove k l).
-Proof.
-  induction l as [|[k' v'] r IH]; cbn [aremove]; intros F; [constructor|].
-  inversion F; subst. destruct (Nat.eqb k k'); [assumption | constructor; auto].
-Qed.
-Lemma Forall_lookup {A} (P : nat * A -> Prop) k v l : Forall P l -> alookup k l = Some v -> P (k, v).
-Proof. intros F L. rewrite Forall_forall in F. apply F. apply alookup_In. exact L. Qed.
 
 (* parity: the word is even exactly when no guard is alive *)
 Lemma WInv_even x : WInv x -> sw0 (m_sh x) mod 2 = 0 -> length (m_guards x) = 0%nat.
